@@ -32,6 +32,10 @@ def run(tier, scratch, drv, only_cases=None):
             cases.append({"cfg": {"kind": "srv2", "url": first},
                           "obs": [{"k": "op", "op": "listen", "res": "ok"}, {"k": "op", "op": "close", "res": "ok|err"},
                                   {"k": "op", "op": "dial", "res": "err"}]})
+        # a Server whose second listener cannot bind: ListenAndServe returns by itself, Close must stop the first
+        cases.append({"cfg": {"kind": "srv2busy"},
+                      "obs": [{"k": "op", "op": "listen", "res": "ok"}, {"k": "op", "op": "close", "res": "ok|err"},
+                              {"k": "op", "op": "dial", "res": "err"}]})
         for i, c in enumerate(cases):
             c["n"] = i + 1
         res["model"] = {"states": states, "transitions": gen, "wall_s": round(wall, 2), "invariants_checked": True}
